@@ -112,7 +112,9 @@ def handle (op : String) (j : Json) : Except String Json := do
     let tight := Json.bool (ls0.all NumberedLines.openerTight)
     let ls := match j.getObjVal? "k" with
       | .ok kj => match kj.getNat? with
-        | .ok k => ls0.map (NumberedLines.scaleLine k)
+        | .ok k => match j.getObjVal? "text" with
+          | .ok (.str t) => NumberedLines.splitNL (NumberedLines.scaleContent k t.toList)   -- content level (`numbered_content_scale_partial`)
+          | _ => ls0.map (NumberedLines.scaleLine k)
         | _ => ls0
       | _ => ls0
     match NumberedLines.numbered ls with
